@@ -83,8 +83,8 @@ theorem roundtrip_F1_tree (e : BEnv) (Γ : Ctx) (cfg : SerCfg) (pcfg : ParserCon
       | some m => exact ⟨m, by simp [metaOf, hf, hmf]⟩
   have hgenEq : generate e Γ cfg (.obj c fields) =
       genObj e Γ cfg (4 * (Val.obj c fields).size + 8) (.obj c fields) none none false none := rfl
-  have key := fun M => main_all e Γ cfg pcfg M hΓ (n + 1) (.obj c fields) c none none none m.qname
-    (4 * (Val.obj c fields).size + 8) m m hm hm rfl rfl (nsAgree_self Γ m) hv (by omega)
+  have key := fun M => main_all e Γ cfg pcfg M (ns := true) hΓ (n + 1) (.obj c fields) c none none m.qname
+    (4 * (Val.obj c fields).size + 8) m hm rfl hv (by omega)
   obtain ⟨evs, _, _, _, hgen0, _⟩ := key []
   obtain ⟨evs', a, text, kids, hgen, htree, hsub, hplain, hxt, hxn, hparse⟩ :=
     key (prefixMap (collectUris evs))
